@@ -953,8 +953,7 @@ func TestCheck(t *testing.T) {
 		c := &checker{t: t, run: run, e: e, g: newGen(e, width), salt: salt, shrinkCache: map[string][]string{}}
 		stop := false
 		n := c.g.forEachBase(depth, size, func(i int, mk func() *Op) bool {
-			my := run.Mine(idx)
-			idx++
+			my := run.Mine(idx + int64(i))
 			if !my {
 				return true
 			}
@@ -981,6 +980,8 @@ func TestCheck(t *testing.T) {
 			return true
 		})
 		total += n
+		idx += int64(n)
+		run.Bound("fragment_free_abstract_family_operations_per_universe", len(c.g.deepAbstractOps()))
 		if len(c.genInvalid) > 0 {
 			sort.Strings(c.genInvalid)
 			t.Fatalf("INFRA: the generator produced %d operations that gqlparser rejects, first: %s", len(c.genInvalid), c.genInvalid[0])
